@@ -5,13 +5,15 @@ use std::fmt::Write as _;
 use std::fs;
 use std::path::Path;
 
-const COLS: [(&str, &str); 32] = [
+const COLS: [(&str, &str); 33] = [
     ("Key", "key"), ("Zed", "zed"), ("Pad", "pad"), ("Bya", "bya"), ("Byb", "byb"), ("Byc", "byc"),
     ("Byd", "byd"), ("Bye", "bye"), ("Byf", "byf"), ("Arr", "arr"), ("Txt", "txt"), ("Bxd", "bxd"),
     ("Opt", "opt"), ("Zno", "zno"), ("Trk", "trk"), ("Vek", "vek"),
     ("Bxe", "bxe"), ("Xab", "xab"), ("Xac", "xac"), ("Xad", "xad"), ("Xae", "xae"), ("Xaf", "xaf"),
     ("Xag", "xag"), ("Zee", "zee"), ("Xai", "xai"), ("Xaj", "xaj"), ("Xak", "xak"), ("Xal", "xal"),
     ("Xam", "xam"), ("Xan", "xan"), ("Xao", "xao"), ("Trl", "trl"),
+    // index 32: only used by the permuted archetype Pfr
+    ("Big", "big"),
 ];
 
 const ARCHS: [(&str, &str); 32] = [
@@ -40,7 +42,7 @@ fn main() {
     // and the Key column last (the harness finds the Key through KEYPOS, not by position 0).
     let mut specs: Vec<(String, String, Vec<usize>)> = arities.iter().map(|ar| (ARCHS[ar - 1].0.to_string(), ARCHS[ar - 1].1.to_string(), (0..*ar).collect())).collect();
     specs.push(("Zfr".into(), "zfr".into(), vec![1, 0, 2]));
-    specs.push(("Pfr".into(), "pfr".into(), vec![2, 13, 0]));
+    specs.push(("Pfr".into(), "pfr".into(), vec![2, 13, 32, 0]));
     let n = specs.len();
     let mut s = String::new();
 
